@@ -122,7 +122,7 @@ class C05(Prop):
         rnd = random.Random(seed)
         combos = G.all_kind_combos()          # 4 + 16 + 64
         quick = tier == 'quick'
-        per = (8 if quick else 1200) * scale
+        per = (18 if quick else 800) * scale
         cases = []
         flavours = ['std', 'std', 'std', 'std', 'pad', 'pad', 'units', 'plain', 'inconsistent', 'malformed', 'noref']
         for kinds in combos:
